@@ -99,6 +99,15 @@ namespace
                 else if (pick == 4) comp.push_back(punct[r.below(sizeof(punct) - 1)]);
                 else comp.push_back(static_cast<char>('0' + r.below(10)));
             }
+            // names that look like something else: suffixes the kernel or tools attach in other situations, dots, trailing blanks
+            if (r.chance(1, 6))
+            {
+                static const char* const tails[] = {" (deleted)", "(deleted)", " (deleted) ", ".exe", "..", "...", ".", " ", "~", ".so.1", "\\", "%s", "\n", ":", "//"[0] ? " -> x" : ""};
+                const char* t = tails[r.below(sizeof(tails) / sizeof(tails[0]))];
+                size_t tl = std::strlen(t);
+                if (tl <= comp.size()) comp.replace(comp.size() - tl, tl, t);
+                for (char& ch : comp) if (ch == '/') ch = '_';
+            }
             if (comp == "." || comp == "..") comp[0] = '_';      // a canonical path has no such component
             out += comp;
             comps.push_back(comp);
